@@ -69,9 +69,19 @@ def build_case(seed):
     eol = rng.choice(["\n", "\n", "\r\n"])
     lines = []
     number = rng.randint(0, 50)
+    stale = False
+    extras = {}
     for step in rest:
         if step[0] == "addr":
+            # a file cannot add regions: the generator's classification of later arcs against
+            # this region is void (they become unclassified, i.e. outside the T1 model's scope)
+            stale = True
             continue
+        if step[0] == "g":
+            extra = dict(step[2])
+            if stale and extra.get("cls"):
+                extra["cls"] = ""
+            extras[step[1]] = extra
         if rng.random() < 0.12:
             lines.append(rng.choice(["", "   ", "; just a comment", "  ; indented comment",
                                      ";", "(not gcode)", "M117 Hello ; world"]))
@@ -79,12 +89,13 @@ def build_case(seed):
             text, number = decorate(rng, step[1], number)
             lines.append(text)
         else:
-            text, number = decorate(rng, "@" + step[1] + ((" " + step[2]) if step[2] else ""),
+            sep = rng.choice([" ", " ", "  ", "\t", " \t"])
+            text, number = decorate(rng, "@" + step[1] + ((sep + step[2]) if step[2] else ""),
                                     number)
             lines.append(text)
     terminated = rng.random() < 0.7
     return {"seed": seed, "cfg": prog.cfg, "prefix": prefix, "lines": lines, "eol": eol,
-            "terminated": terminated, "extras": dict((s[1], s[2]) for s in rest if s[0] == "g")}
+            "terminated": terminated, "extras": extras}
 
 
 def run_case(case, trace_id):
